@@ -217,6 +217,7 @@ theorem quiet_runFrame (p : Prog) (h : Hist) {s : St} (hf : ∀ e, s.nextEnt ≤
     simp only [runFrame, doExclActs]
     split
     · exact hrefl _ rfl (grow_of_eq rfl rfl)
+    · exact hrefl _ rfl (grow_of_eq rfl rfl)
     · have q := hacts ‹Act›; exact ⟨q.info, q.freshInfo, q.next, q.al⟩
   by_cases ht : ∃ t i, f = .topActs t i
   · obtain ⟨t, i, rfl⟩ := ht
